@@ -80,7 +80,7 @@ impl Profile {
             "C03" => Profile { p_on_or: 0.04, p_cross: 0.04, p_outer_kinds: 0.05, p_multi_dp: 0.06, p_shared_cte: 0.05, p_nested_group: 0.03, ..base },
             "C01" => Profile { p_on_or: 0.06, p_cross: 0.06, p_outer_kinds: 0.06, p_shared_cte: 0.03, p_nested_group: 0.05, ..base },
             "C09" => Profile { p_fn_exprs: 0.25, p_modulo: 0.12, p_alias_shadow: 0.4, public_keys_only: true, benign_data: true, p_distinct: 0.12, p_row_privacy: 0.15, p_grouped: 0.65, ..base },
-            "C04" => Profile { p_key_via_agg: 0.25, p_nested_group: 0.08, p_nested: 0.0, need_private_key: true, p_grouped: 1.0, p_outer: 0.0, p_distinct: 0.05, ..base },
+            "C04" => Profile { p_unsupported_agg: 0.08, p_key_via_agg: 0.25, p_nested_group: 0.08, p_nested: 0.0, need_private_key: true, p_grouped: 1.0, p_outer: 0.0, p_distinct: 0.05, ..base },
             "C16" => Profile { benign_data: true, full_catalogue: true, p_public_table: 1.0, p_synthetic: 0.3, ..base },
             "C02" => Profile { p_join_of_subqueries: 0.05, p_on_or: 0.04, p_unsupported_agg: 0.08, p_cross: 0.04, p_outer_kinds: 0.05, p_multi_dp: 0.04, p_nested_group: 0.03, p_shared_cte: 0.08, p_plain: 0.25, p_synthetic: 0.4, p_public_table: 0.5, p_outer: 0.2, ..base },
             _ => base,
@@ -830,6 +830,7 @@ pub fn generate(seed: u64, run: u64, prop: &str) -> Generated {
                 raw_sql: Some(sql),
                 holders_override: Some(holders),
                 inner_where: vec![],
+                outer_group_by: false,
             };
             let base = Some((a, base_name.clone()));
             return finish(seed, run, tables2, synthetic, pu, params, query, base, tags, faults, &protected);
@@ -855,7 +856,7 @@ pub fn generate(seed: u64, run: u64, prop: &str) -> Generated {
                 op = rg.pick(&["UNION", "UNION ALL"])
             );
             tags.push("multi_dp".into());
-            let query = QuerySpec { from: vec![], where_: vec![], keys: vec![], aggs: vec![], having: None, outer: None, plain: None, cte: None, raw_sql: None, holders_override: None, inner_where: vec![] };
+            let query = QuerySpec { from: vec![], where_: vec![], keys: vec![], aggs: vec![], having: None, outer: None, plain: None, cte: None, raw_sql: None, holders_override: None, inner_where: vec![], outer_group_by: false };
             let base = Some((a, base_t.name.clone()));
             let mut g = finish(seed, run, tables, synthetic, pu, params, query, base, tags, faults, &protected);
             g.scenario.sql = sql;
@@ -890,7 +891,7 @@ pub fn generate(seed: u64, run: u64, prop: &str) -> Generated {
             let sql = if order { format!("WITH t AS ({}) {} UNION ALL {}", inner, first, second) } else { format!("WITH t AS ({}) {} UNION ALL {}", inner, second, first) };
             tags.push(format!("keys:{}", if public_set_of(&kc.ty).is_some() { "pub" } else { "priv" }));
             tags.push("shared_cte".into());
-            let query = QuerySpec { from: vec![], where_: vec![], keys: vec![], aggs: vec![], having: None, outer: None, plain: None, cte: None, raw_sql: None, holders_override: None, inner_where: vec![] };
+            let query = QuerySpec { from: vec![], where_: vec![], keys: vec![], aggs: vec![], having: None, outer: None, plain: None, cte: None, raw_sql: None, holders_override: None, inner_where: vec![], outer_group_by: false };
             let base = Some((a, base_t.name.clone()));
             let mut g = finish(seed, run, tables, synthetic, pu, params, query, base, tags, faults, &protected);
             g.scenario.sql = sql;
@@ -913,7 +914,7 @@ pub fn generate(seed: u64, run: u64, prop: &str) -> Generated {
                 oc = oc
             );
             let base = Some(("u".to_string(), "users".to_string()));
-            let query = QuerySpec { from: vec![], where_: vec![], keys: vec![], aggs: vec![], having: None, outer: None, plain: None, cte: None, raw_sql: None, holders_override: None, inner_where: vec![] };
+            let query = QuerySpec { from: vec![], where_: vec![], keys: vec![], aggs: vec![], having: None, outer: None, plain: None, cte: None, raw_sql: None, holders_override: None, inner_where: vec![], outer_group_by: false };
             let mut g = finish(seed, run, tables, synthetic, pu, params, query, base, tags, faults, &protected);
             g.scenario.sql = sql;
             g.scenario.query = None;
@@ -932,7 +933,7 @@ pub fn generate(seed: u64, run: u64, prop: &str) -> Generated {
         tags.push("plain".into());
         let set_op = if from.len() == 1 && rg.chance(0.3) { Some(*rg.pick(&["UNION", "UNION ALL", "EXCEPT", "INTERSECT"])) } else { None };
         let base = Some((alias_of(&base_t.name), base_t.name.clone()));
-        let query = QuerySpec { from, where_, keys: vec![], aggs: vec![], having: None, outer: None, plain: Some(plain), cte: None, raw_sql: None, holders_override: None, inner_where: vec![] };
+        let query = QuerySpec { from, where_, keys: vec![], aggs: vec![], having: None, outer: None, plain: Some(plain), cte: None, raw_sql: None, holders_override: None, inner_where: vec![], outer_group_by: false };
         if let Some(op) = set_op {
             // a set operation of the projection with itself (both branches read protected rows)
             tags.push("set_operation".into());
@@ -1121,7 +1122,7 @@ pub fn generate(seed: u64, run: u64, prop: &str) -> Generated {
             tags.push("nested".into());
         }
     }
-    let mut query = QuerySpec { from, where_, keys, aggs, having, outer: if cte.is_some() { None } else { outer }, plain: None, cte, raw_sql: None, holders_override: None, inner_where: vec![] };
+    let mut query = QuerySpec { from, where_, keys, aggs, having, outer: if cte.is_some() { None } else { outer }, plain: None, cte, raw_sql: None, holders_override: None, inner_where: vec![], outer_group_by: false };
     // HAVING on a SUM (own stream) instead of on count(*): the threshold has a fraction no sum of
     // generated values hits, so rounding cannot decide the group
     let mut rha = Rng::stream(seed, run, "having_agg");
@@ -1318,9 +1319,17 @@ pub fn generate(seed: u64, run: u64, prop: &str) -> Generated {
     let mut rua = Rng::stream(seed, run, "unsupported_agg");
     if rua.chance(profile.p_unsupported_agg) && query.cte.is_none() {
         let f = *rua.pick(&["max", "min"]);
-        if rua.chance(0.5) && !query.aggs.is_empty() {
+        if (rua.chance(0.5) || profile.need_private_key) && !query.aggs.is_empty() {
             let a = query.aggs[rua.usize(query.aggs.len())].alias.clone();
-            query.outer = Some(vec![(format!("{}({})", f, a), "m".to_string())]);
+            if !query.keys.is_empty() && (rua.chance(0.7) || profile.need_private_key) {
+                // ... re-grouped by the keys of the DP aggregation
+                let mut o: Vec<(String, String)> = query.keys.iter().map(|k| (k.alias.clone(), k.alias.clone())).collect();
+                o.push((format!("{}({})", f, a), "m".to_string()));
+                query.outer = Some(o);
+                query.outer_group_by = true;
+            } else {
+                query.outer = Some(vec![(format!("{}({})", f, a), "m".to_string())]);
+            }
             tags.push("unsupported_agg_over_dp".into());
         } else if let Some((q, _)) = numeric.first() {
             query.plain = Some(vec![(format!("{}({})", f, q), "m".to_string())]);
